@@ -8,7 +8,7 @@ open Rwmutex_model
 let nat_of_int n = let rec go acc k = if k <= 0 then acc else go (S acc) (k-1) in go O n
 let rec int_of_nat = function O -> 0 | S n -> 1 + int_of_nat n
 
-type case = { pref : bool; n : int; seed : int64 option; sched : (int * bool) list; prog : op list array }
+type case = { pref : bool; n : int; seed : int64 option; sched : (int * bool) list; prog : op list array; pm : bool }
 
 let parse_choice s =
   let l = String.length s in
@@ -28,11 +28,12 @@ let parse_case line =
   | Some p ->
     (try
       let head = String.sub line 0 p and body = String.sub line (p+1) (String.length line - p - 1) in
-      let pref = ref true and n = ref 0 and seed = ref None and sched = ref [] in
+      let pref = ref true and n = ref 0 and seed = ref None and sched = ref [] and pm = ref false in
       List.iter (fun h ->
         let l = String.length h in
         if l >= 2 && String.sub h 0 2 = "p=" then pref := (h.[2] = '1')
         else if l >= 2 && String.sub h 0 2 = "n=" then n := int_of_string (String.sub h 2 (l-2))
+        else if l >= 4 && String.sub h 0 3 = "pm=" then pm := (h.[3] = '1')
         else if l >= 5 && String.sub h 0 5 = "seed=" then (if h.[5] <> '-' then seed := Some (Int64.of_string ("0u" ^ String.sub h 5 (l-5))))
         else if l >= 4 && String.sub h 0 4 = "sch=" then
           sched := List.map parse_choice (List.filter (fun x -> x <> "") (String.split_on_char '.' (String.sub h 4 (l-4)))))
@@ -45,7 +46,7 @@ let parse_case line =
       let n = max !n (maxt+1) in
       let prog = Array.make n [] in
       List.iter (fun (t, o) -> prog.(t) <- prog.(t) @ [o]) toks;
-      Some { pref = !pref; n; seed = !seed; sched = !sched; prog }
+      Some { pref = !pref; n; seed = !seed; sched = !sched; prog; pm = !pm }
     with _ -> None)
 
 let choice_text (t, to_) = string_of_int t ^ (if to_ then "!" else "")
@@ -160,4 +161,5 @@ let () =
   List.iteri (fun k line ->
     match parse_case line with
     | None -> Printf.printf "%d BADCASE\n" k
+    | Some c when c.pm -> Printf.printf "%d PM\n" k   (* pool-race runs are judged by the harness oracles only; the model covers them with the LEnv label *)
     | Some c -> (try run_case k c with Failure m -> Printf.printf "%d MODEL-ERROR %s\n" k m)) lines
